@@ -97,14 +97,18 @@ func (f *STFS) Create(name string) (afero.File, error) {
 
 	name = cleanName(name)
 
-	if parent, err := inventory.Stat(
+	// Look at the parent under the lock, like every other call: a rename onto an existing empty directory removes and re-creates its target, and an unlocked look can fall in between and miss a directory that exists before and after that rename
+	f.ioLock.Lock()
+	parent, err := inventory.Stat(
 		f.metadata,
 
 		filepath.Dir(name),
 		false,
 
 		f.onHeader,
-	); err != nil {
+	)
+	f.ioLock.Unlock()
+	if err != nil {
 		if err == sql.ErrNoRows {
 			return nil, os.ErrNotExist
 		}
